@@ -92,6 +92,10 @@ def check(ctx, rep):
         over_live = [l for l in loops if l.d[1] == T]
         rep.ob("R-SWEEP", "shutdown: the cancel loop walks the snapshot, not the live set", bool(over_snap) and not over_live, "loop over %s" % [fmt(l.d[1]) for l in loops], where_of(sh), trace_of(p))
         per = [c for c in cancels if isinstance(q.recv(c), tuple) and q.recv(c)[0] == "elem" and q.recv(c)[1] == sval]
+        iterated = [l for l in p.evs("loop") if over_snap and l.node is over_snap[0].node and l.d[0] == "back"]
+        skipped_done = any(v is True and isinstance(t, tuple) and t[0] == "call" and isinstance(t[1], tuple) and t[1][0] == "attr" and t[1][2] in ("done", "cancelled") and isinstance(t[1][1], tuple) and t[1][1][0] == "elem" for t, v, e in q.atoms(p))
+        if iterated and not per and not skipped_done:
+            rep.ob("R-SWEEP", "shutdown: exactly one cancel() per member", False, "an iteration of the sweep makes no cancel() call on its future (path: %s): a member of the snapshot that is not yet done is skipped, e.g. one that reports running() -- futures of the library's own layers are running() between retries or while queued and do act on cancel()" % q.path_sig(p)[-160:], where_of(sh, over_snap[0].node), trace_of(p))
         if per:
             rep.ob("R-SWEEP", "shutdown: exactly one cancel() per member", len(per) == 1 and len(cancels) == 1, "cancel() calls in one iteration: %d" % len(cancels), where_of(sh), trace_of(p))
             rep.ob("R-SWEEP", "shutdown: cancel() runs outside the set's lock", not [l for l in per[0].locks if l in lk], "", where_of(sh, per[0].node))
@@ -101,6 +105,33 @@ def check(ctx, rep):
         else:
             rep.ob("R-SWEEP", "shutdown: the delegate is shut down after the sweep with the caller's arguments", False, "no delegate shutdown on the first-shutdown path", where_of(sh), trace_of(p))
     rep.ob("R-SWEEP", "shutdown: the call that flips the flag performs the sweep", nfirst >= 1, "no path of shutdown() on which the flag is flipped goes on to snapshot and cancel the tracked futures", where_of(sh))
+
+
+def discard_order_rule(ctx, rep, rule):
+    """the tracked set never keeps a future that is already done: submit() adds the future before it registers the
+    callback that removes it again (an already-done future runs that callback at once).  Used by C20 as well: the
+    shutdown sweep counts a successful cancel() per member, and cancel() is also True on a future that had been
+    cancelled long before."""
+    ci = ctx.prog.cls("CancelOnShutdownExecutor")
+    sm = ci.methods.get("submit")
+    rep.require(sm is not None, "CancelOnShutdownExecutor.submit not found")
+    ps, it = ctx.paths(sm, ci, depth=5, inline=std_inline)
+    n = 0
+    for p in ps:
+        if p.status != "return":
+            continue
+        fut = p.value
+        adds = [e for e in p.calls() if q.call_name(e) == "add" and q.self_field(q.recv(e)) and e.d["args"] == (fut,)]
+        regs = [e for e in p.calls() if q.call_name(e) == "add_done_callback" and q.recv(e) == fut]
+        if len(adds) != 1 or not regs:
+            continue
+        n += 1
+        T = q.recv(adds[0])
+        rm = [e for e in regs if e.d["args"] == (("attr", T, "discard"),) or e.d["args"] == (("attr", T, "remove"),)]
+        rep.ob(rule, "CancelOnShutdownExecutor.submit: a done future leaves the tracked set", len(rm) == 1, "callbacks registered on the future: %s" % [[fmt(a) for a in e.d["args"]] for e in regs], where_of(sm), trace_of(p))
+        if len(rm) == 1:
+            rep.ob(rule, "CancelOnShutdownExecutor.submit: tracked before the self-removal callback is registered", adds[0].seq < rm[0].seq, "a future that is already done (or cancelled) when submit() gets it runs the removal callback before it is added and then stays in the set: the shutdown sweep calls cancel() on it, which is True for a future cancelled earlier, and counts a shutdown-cancel that never happened", where_of(sm, rm[0].node), trace_of(p))
+    rep.require(n >= 1, "CancelOnShutdownExecutor.submit: registration of the returned future not found")
 
 
 def _gate_only(callee, ev, path):
